@@ -8,7 +8,7 @@ from . import ampl, trace
 from . import ampl_universe as U
 from .core import Machinery
 
-REAL_QUICK = [("jpsi_gpp_f0", "helicity"), ("jpsi_gpp_f2", "canonical-helicity"), ("jpsi_gpp_omega", "helicity"), ("etac_lambdas", "helicity")]
+REAL_QUICK = [("jpsi_gpp_f0", "helicity"), ("jpsi_gpp_f2", "canonical-helicity"), ("jpsi_3pi_rho", "canonical-helicity"), ("jpsi_gpp_omega", "helicity"), ("etac_lambdas", "helicity")]
 REAL_THOROUGH = REAL_QUICK + [
     ("jpsi_gpp_f0", "canonical-helicity"), ("jpsi_3pi_rho", "helicity"), ("jpsi_ksp_sigma", "helicity"), ("jpsi_ksp_two", "helicity"),
     ("jpsi_ksp_sigma", "canonical-helicity"), ("lc_pkpi", "helicity"), ("d0_kskk", "helicity"), ("jpsi_4body", "helicity"), ("etac_lambdas", "canonical-helicity"),
